@@ -139,6 +139,10 @@ def generated_queries(tier='quick'):
             (f'ts-{mname}-model-left', f"SELECT * FROM mindsdb.{mname} AS m JOIN int1.tbl1 AS t WHERE t.t BETWEEN '2020-01-01' AND '2020-02-01'"),
             (f'ts-{mname}-create', f"CREATE TABLE int2.out1 (SELECT * FROM int1.tbl1 AS t JOIN mindsdb.{mname} AS m WHERE t.t > LATEST)"),
         ]
+    # comparisons whose other operand(s) are not constants: nothing of them may be pushed into the fetch of one table
+    for i, cond in enumerate(('t.a BETWEEN 1 AND m.hi', 't.a BETWEEN m.lo AND 5', 't.a BETWEEN 1 AND t2.hi', 't.a BETWEEN t2.lo AND t2.hi', 't.a = t2.b + 1', 't.a IN (1, t2.b)', 't.a > m.x', 't.a BETWEEN 1 AND 5')):
+        q.append((f'nonconst-{i}-model', f'SELECT * FROM int1.tbl1 AS t JOIN mindsdb.pred AS m WHERE {cond.replace("t2.", "m.")} AND t.b = 2'))
+        q.append((f'nonconst-{i}-join', f'SELECT * FROM int1.tbl1 AS t JOIN int2.tbl2 AS t2 ON t.id = t2.id WHERE {cond.replace("m.", "t2.")} AND t.b = 2'))
     # the "dbt form": the data side of a time-series join written as a sub-select (own WHERE / LIMIT), alone and below INSERT / CREATE TABLE;
     # data table in an integration, unqualified (takes the target's integration), or in a project
     for mname in ('tp', 'tpnone'):
